@@ -305,7 +305,7 @@ func resolved(regime string, set tax.Set) []refcalc.Combo {
 			rc.Ext = refcalc.ExtKey(m)
 		}
 		country := regime
-		if rc.Country != "" {
+		if rc.Country != "" && pubdata.HasRegime(rc.Country) {
 			country = rc.Country
 		}
 		rc.Retained = pubdata.Retained(country, rc.Cat)
